@@ -282,6 +282,18 @@ def fixed_cases():
         yield {"prog": prog, "inputs": [M.enc_inputs({"uid": t}) for t in tokens] + [M.enc_inputs({"uid": t[4:]}) for t in tokens[:6]]}
     prog = M.program("exp", body, salt=None, splitters=["a", "b"])
     yield {"prog": prog, "inputs": [M.enc_inputs({"a": t[:16], "b": t[16:]}) for t in tokens[:6]]}
+    # keys whose length sits on / next to a block size (64-byte MD5 blocks, 4 kB / 64 kB buffers): characters and bytes
+    body = M.ret([(M.lit_str("g%d" % j), "1") for j in range(32)])
+    for salt, ch in ((None, "x"), ("s", "x"), ("é", "é"), ("", "日")):
+        lens = sorted({2 ** k + d for k in (6, 7, 9, 10, 12, 13, 14, 16) for d in (-1, 0, 1)} | {4096 * m for m in (2, 3, 4, 5, 8, 32)} | {55, 56, 57, 119, 120, 1 << 20})
+        prog = M.program("exp", body, salt=salt, splitters=["uid"])
+        yield {"prog": prog, "inputs": [M.enc_inputs({"uid": ch * (n - len(salt or ""))}) for n in lens]}
+    prog = M.program("exp", body, salt="s", splitters=["a", "b"])
+    yield {"prog": prog, "inputs": [M.enc_inputs({"a": "a" * (n // 2), "b": "b" * (n - n // 2 - 1)}) for n in (4096, 8192, 12288, 16384, 65536)]}
+    # values that ARE str / int but print differently (str-mixin enum members, id wrappers, named constants): str() rules
+    prog = M.program("exp", body, salt="s", splitters=["uid", "tier"])
+    subs = [M.StrSub("gold", "Tier.GOLD"), M.StrSub("u1", "U1"), M.StrSub("", "empty"), M.StrSub("x", ""), M.IntSub(1, "Color.RED"), M.IntSub(0, "zero"), M.StrSub("gold", "gold")]
+    yield {"prog": prog, "inputs": [M.enc_inputs({"uid": v, "tier": w}) for v in subs for w in ("gold", subs[0], 1)]}
     # every catalogue salt and every hostile-but-legal string, as the salt and as a splitter value
     for i, salt in enumerate(SALTS_ASCII + SALTS_UNI + gen.TRICKY_STRS):
         if any(c in salt for c in M.LINE_BREAKS) or ('"' in salt and "'" in salt):
